@@ -22,7 +22,7 @@ ASSUMPTIONS = [
     "cron recurrence not exercised (croniter absent); recurrence via deferred_by",
 ]
 EVAL_COUNTER = "deliveries_judged"
-REQUIRED = ["deliveries_judged", "exp_ack", "exp_nack", "exp_retry", "exp_reschedule", "exp_eager", "sentinels_acked", "cells_with_unencodable_return", "runs_on_the_default_connection"]
+REQUIRED = ["deliveries_judged", "exp_ack", "exp_nack", "exp_retry", "exp_reschedule", "exp_eager", "sentinels_acked", "cells_with_unencodable_return", "runs_on_the_default_connection", "redeliveries_compared"]
 CASE_TIMEOUT = 120
 
 EAGER = ("ack", "nack", "reject", "retry", "force_retry", "reschedule")
@@ -265,6 +265,17 @@ async def scenario(loop, case, out, stats, fps, samples):
                         s["exits"] += 1
                     elif e["k"] == "body_continued":
                         s["cont"] += 1
+            # what comes back is what was put back: the next delivery carries the attempt counter of the requeue (or, after a
+            # reject, of the delivery itself) - the per-delivery expectations below trust that counter
+            for prev, cur in zip(segs, segs[1:]):
+                rq = [e for e in prev["disp"] if e.get("op") == "requeue"]
+                want_tried = (rq[-1].get("params") or {}).get("tried") if rq else (prev["tried"] if [e for e in prev["disp"] if e.get("op") == "reject"] else None)
+                if want_tried is not None and cur["tried"] is not None:
+                    stats["redeliveries_compared"] += 1
+                    if cur["tried"] != want_tried:
+                        out.append(V("wrong_disposition", kind, "redelivered-with-other-counter", f"{id_} {cell['o']}: put back with already_tried={want_tried} ({'requeue' if rq else 'reject'}), "
+                                                                                                    f"delivered again with already_tried={cur['tried']}"))
+                        break
             nth_by_attempt = collections.Counter()
             for n, s in enumerate(segs):
                 no_actor = cell["o"] in ("badpayload", "depfail") or cell["o"].startswith("depeager")
